@@ -8,14 +8,15 @@
 //!
 //! case lines
 //!   `det run f:<0|1|2> exc:<0|1> lim:<n>.<seed> alias:<0..4> mods:<path>=<ok|nf|pe>[@<g>],.. thr:<m.m.m;m.m;..>
-//!            sched:<d.d.d|d.d.d|..> runs:<N> x:<subset of BRT> rs:<seed> evil:<0|1|2>`
+//!            sched:<d.d.d|d.d.d|..> runs:<N> x:<subset of BRT> rs:<seed> evil:<0|1|2> [cpu:<arm64|amd64|arm|x86|mips|mips64|arm64old|ppc|ppc64|sparc>]`
 //!       f       ProcessorOptions: 0 default, 1 stable_all, 2 unstable_all
 //!       exc     add an exception stream (SIGSEGV on the first thread)
 //!       lim     `/proc/<pid>/limits` stream with n limit lines (names/values from the seed); 0: none
-//!       alias   STACK CFI flavour of the modules that have symbols: 0 `x29:` only; 1 `fp:` and
-//!               `x29:` (aliases of one register) with different rules; 2 `fp:` + `x29: .undef`;
-//!               3 like 1 plus a delta record overriding `fp:`; 4: an AMD64 dump instead (`$rbp:` … labels,
-//!               no register aliases on that architecture; code bytes at the crashing instruction)
+//!       alias   STACK CFI flavour of the modules that have symbols (see `cfi_text`): 0 every register once;
+//!               1 every alias pair of the CPU under both spellings with different rules; 2 one spelling
+//!               `.undef`; 3 like 1 plus a delta record overriding one spelling; 4 (legacy) flavour 0 on AMD64;
+//!               5 like 1 with `$` prefixes and duplicate `$x:` / `x:` occurrences
+//!       cpu     CPU of the dump (absent: arm64, or amd64 for flavour 4)
 //!       mods    module list (ARM64 Linux dump); path = code_file; what the supplier answers; `@g`: the
 //!               module carries the PDB70 CodeView record and timestamp of group g (modules of one
 //!               group share debug file, debug id and code id but not the code file)
@@ -31,10 +32,14 @@
 //!   `det file d:<testdata dump> f:<0|1|2> k:<max suspensions> runs:<N> x:<subset of BRT> rs:<seed>`
 //!       a dump of the repository's testdata with the repository's symbol directory behind the same
 //!       gates (oracle only, no model)
-//!   `det cfi init:<r=v+|r=v-,..|-> rules:<hexlabel>=<v|->,..|-> sh:<seed>`
-//!       direct call of `walk_with_stack_cfi` (exported by the `fuzz` feature) with a twin of
-//!       `CfiStackWalker` built on the real `CONTEXT_ARM64`; the rules are rendered into INIT and
-//!       delta records in an order chosen by `sh`; init = caller registers forwarded from the callee
+//!   `det cfi [cpu:<X86|AMD64|ARM|ARM64_OLD|ARM64|PPC|PPC64|MIPS|SPARC>] init:<r=v+|r=v-,..|-> rules:<hexlabel>=<v|->,..|-> sh:<seed>`
+//!       direct call of `walk_with_stack_cfi` (exported by the `fuzz` feature) with a generic twin of
+//!       `CfiStackWalker<C>` built on the real context type (no `cpu:` = ARM64); the rules are rendered into
+//!       INIT and delta records in an order chosen by `sh`; init = caller registers forwarded from the
+//!       callee (r = position in `C::REGISTERS`)
+//!   `det mix a:<cpu> b:<cpu> seq:<digits 0-7> rs:<seed>`
+//!       two dumps processed once each, then printed alternately (digit = 4 * which dump + printer) on one
+//!       thread and as tasks of the multi-thread runtime; every output must equal the same print on a fresh thread
 
 use crate::common::*;
 use async_trait::async_trait;
@@ -1275,6 +1280,7 @@ fn run_file_once(bytes: &[u8], c: &FileCase, sched_seed: u64, exec: char, seed: 
     let _ = state.print_json(&mut out.bytes[1], true).map_err(|e| out.err = Some(format!("print_json(pretty): {e}")));
     let _ = state.print(&mut out.bytes[2]).map_err(|e| out.err = Some(format!("print: {e}")));
     let _ = state.print_brief(&mut out.bytes[3]).map_err(|e| out.err = Some(format!("print_brief: {e}")));
+    out.bytes[5] = raw_dump_text(&dump);
     (out, done)
 }
 
@@ -1303,6 +1309,9 @@ fn exec_file(c: &FileCase) -> ImplResult {
         if let Some(i) = (2..4).find(|i| base.bytes[*i] != o.bytes[*i]) {
             oracle.push((format!("text-differs-across-{kind}"), format!("{what}: {} differs; {}", WHICH[i], first_diff(&base.bytes[i], &o.bytes[i]))));
         }
+        if base.bytes[5] != o.bytes[5] {
+            oracle.push((format!("raw-dump-differs-across-{kind}"), format!("{what}: {}", first_diff(&base.bytes[5], &o.bytes[5]))));
+        }
     };
     for r in 1..c.runs {
         let (o, _) = if r % 2 == 1 {
@@ -1325,7 +1334,7 @@ fn exec_file(c: &FileCase) -> ImplResult {
             diff(&o, if si == 0 { "executors" } else { "schedules" }, &format!("executor {x}, schedule seed +{si}"), &mut res.oracle);
         }
     }
-    for which in ["json", "text"] {
+    for which in ["json", "text", "raw-dump"] {
         if res.oracle.iter().any(|(cl, _)| *cl == format!("{which}-differs-across-runs")) {
             res.oracle.retain(|(cl, _)| *cl != format!("{which}-differs-across-schedules") && *cl != format!("{which}-differs-across-executors"));
         }
@@ -2306,9 +2315,9 @@ fn exec_run(c: &RunCase) -> ImplResult {
     }
     // when already two runs of the SAME schedule and executor differ, differences under other
     // schedules / executors say nothing about schedules / executors
-    for which in ["json", "text"] {
-        if res.oracle.iter().any(|(cl, _)| *cl == format!("{which}-differs-across-runs")) {
-            res.oracle.retain(|(cl, _)| *cl != format!("{which}-differs-across-schedules") && *cl != format!("{which}-differs-across-executors"));
+    for which in ["json-differs", "text-differs", "raw-dump-differs", "pending-stats-differ"] {
+        if res.oracle.iter().any(|(cl, _)| *cl == format!("{which}-across-runs")) {
+            res.oracle.retain(|(cl, _)| *cl != format!("{which}-across-schedules") && *cl != format!("{which}-across-executors"));
         }
     }
     // one report per class is enough
@@ -2627,11 +2636,11 @@ impl Engine for Det {
         "det"
     }
     fn rule(&self) -> String {
-        "kind run: a generated ARM64/Linux (dump, symbols) pair (minidump-synth: 2-8 modules incl. same-leaf paths in 1/3 of the pairs — half of them with different symbol outcomes —, 2-6 threads (31+ in 1/40) walking 2-6 frames through the shared modules by STACK CFI with aliased labels fp:/x29: in 3/4, a /proc/limits stream with 8-18 limits in 9/10, optional exception stream, three option sets) processed runs x schedules x executors times in-process (fresh Symbolizer and hash seeds each; executors B poll-to-completion, R randomised releases + spurious polls, T multi-thread tokio with suspensions in spawned tasks); the four report byte strings of every run are compared with the base run; the model request is built from the REAL iteration orders / completion order of the base run. kind cfi: walk_with_stack_cfi called directly on generated rule maps (0-12 labels incl. aliases fp/x29, lr/x30, unknown names, failing rules, shadowed delta rules) with a twin of CfiStackWalker on the real CONTEXT_ARM64. non-trivial = (run) >= 4 runs compared and some thread was unwound beyond its context frame, (cfi) >= 2 rules; distinct = distinct case line".into()
+        "kind run: a generated Linux (dump, symbols) pair for one of ten CPU flavours (arm64, amd64, arm, x86, mips, arm64old CFI-walked; ppc, ppc64, sparc, mips64 context-only) (minidump-synth: 2-8 modules incl. same-leaf paths in 1/3 of the pairs — half of them with different symbol outcomes —, 2-6 threads (31+ in 1/40) walking 2-6 frames through the shared modules by STACK CFI records that name every alias pair of the CPU under both spellings / $-prefixed duplicates / .undef / overriding delta records in 3/4, a /proc/limits stream with 8-18 limits in 9/10, Crashpad annotations, memory maps, optional exception stream, three option sets) processed runs x schedules x executors times in-process (fresh Symbolizer and hash seeds each, with and without a pending-stats reporter; executors B poll-to-completion, R randomised releases + spurious polls, T multi-thread tokio with suspensions in spawned tasks); the four report byte strings, the reporter summary and the raw stream dump of every run are compared with the base run; the model request is built from the REAL iteration orders / completion order of the base run. kind cfi: walk_with_stack_cfi called directly on generated rule maps (0-12 labels from a ~400-name universe incl. every alias group found by probing memoize_register, unknown names, failing rules, values over 32 bits, shadowed and $-prefixed duplicates in INIT and delta records) with a generic twin of CfiStackWalker on each of the nine real context types. kind mix: two dumps (different pointer widths in 9/10) printed alternately on one thread and as tasks of the 4-worker runtime vs fresh-thread prints. non-trivial = (run) >= 4 runs compared and some thread was unwound beyond its context frame, (cfi) >= 2 rules, (mix) the sequence alternates between the two dumps; distinct = distinct case line".into()
     }
 
     fn exhaustive_part(&self) -> Option<String> {
-        Some("kind cfi: all 256 rule maps over the aliased labels {fp, x29, lr, x30} with outcome {absent, 5, 6, evaluation fails} each, x 3 initial caller states, each map called 8 times (fresh HashMap, 3 renderings) and compared with walkRest arm64".into())
+        Some("kind cfi: for every one of the nine CPU context types and every two of its alias groups (ARM: r11/fp r13/sp r14/lr r15/pc; ARM64, ARM64_OLD: x29/fp x30/lr; SPARC: neighbouring window-name pairs), all 256 rule maps over the four labels with outcome {absent, 5, 6, evaluation fails} each, x 3 initial caller states (SPARC: 1), each map called 8 times (fresh HashMap, 3 renderings) and compared with walkRest (cpu c)".into())
     }
 
     fn generate(&self, tier: Tier, rng: &mut Rng, emit: &mut dyn FnMut(String)) {
